@@ -469,7 +469,7 @@ static void supervise(const char *out, long k, FILE *fres, pid_t pid, int rfd, u
         }
     }
     if (!exited) {
-        if (hang && o_gdb) {
+        if ((hang || hard) && o_gdb) { /* where it is parked, or where it spins */
             char cmd[2048];
             snprintf(cmd, sizeof(cmd),
                      "timeout 120 gdb -p %d -batch -ex 'thread apply all bt 14' > %s.k%ld.gdb 2>/dev/null < /dev/null", (int)pid,
